@@ -53,6 +53,12 @@ func (s *slicer) run(roots ...ssa.Value) *sliceResult {
 			if s.fieldStop && s.c.ephemeralField(k) {
 				continue // a field of a helper struct that only lives in locals: not a root, its stores were followed
 			}
+			if fa, isFA := v.(*ssa.FieldAddr); isFA && s.fieldStop && s.c.inConstTable(fa) {
+				continue // an entry of a package-level table of constants
+			}
+			if s.fieldStop && strings.HasPrefix(k, ".") {
+				continue // a field of an unnamed struct type (a local row of a table): where its value comes from has been followed
+			}
 			res.fields[k] = append(res.fields[k], v)
 		case *ssa.Call:
 			n := calleeName(x.Common())
@@ -790,4 +796,82 @@ func (c *Ctx) ephemeralTypes() map[string]bool {
 		}
 	}
 	return c.ephemeral
+}
+
+// inConstTable: the address lies inside a package-level variable of the module that is only ever written by its package
+// initialiser, with constants (a table such as `var markers = [...]struct{name, contents string}{…}`).
+func (c *Ctx) inConstTable(addr ssa.Value) bool {
+	var g *ssa.Global
+	for v := addr; g == nil; {
+		switch x := v.(type) {
+		case *ssa.FieldAddr:
+			v = x.X
+		case *ssa.IndexAddr:
+			v = x.X
+		case *ssa.Global:
+			g = x
+		default:
+			return false
+		}
+	}
+	if g.Pkg == nil || !strings.HasPrefix(g.Pkg.Pkg.Path(), modPath) {
+		return false
+	}
+	if c.constTables == nil {
+		c.constTables = map[*ssa.Global]bool{}
+		written := map[*ssa.Global]bool{} // written outside init or with a non-constant
+		seen := map[*ssa.Global]bool{}
+		for _, p := range c.SSAPkgs {
+			if p == nil || !strings.HasPrefix(p.Pkg.Path(), modPath) {
+				continue
+			}
+			var fns []*ssa.Function
+			for _, m := range p.Members {
+				if f, ok := m.(*ssa.Function); ok {
+					fns = append(fns, f)
+					fns = append(fns, f.AnonFuncs...)
+				}
+			}
+			fns = append(fns, c.ModFuncs...)
+			for _, f := range fns {
+				for _, b := range f.Blocks {
+					for _, in := range b.Instrs {
+						st, ok := in.(*ssa.Store)
+						if !ok {
+							continue
+						}
+						var base *ssa.Global
+						for v := st.Addr; base == nil; {
+							switch x := v.(type) {
+							case *ssa.FieldAddr:
+								v = x.X
+							case *ssa.IndexAddr:
+								v = x.X
+							case *ssa.Global:
+								base = x
+							default:
+								v = nil
+							}
+							if v == nil {
+								break
+							}
+						}
+						if base == nil {
+							continue
+						}
+						seen[base] = true
+						if _, isC := st.Val.(*ssa.Const); !isC || f.Name() != "init" {
+							written[base] = true
+						}
+					}
+				}
+			}
+		}
+		for gl := range seen {
+			if !written[gl] {
+				c.constTables[gl] = true
+			}
+		}
+	}
+	return c.constTables[g]
 }
